@@ -174,7 +174,7 @@ def handleLp (reasm : Bool) (validL3 : Bytes → Bool) (store : Store) (f : Fram
     two token bytes (none if no such thread: "Invalid PIT token - DROP"); other Data → every prefix
     thread. -/
 def dispatchThreads (nThreads : Nat) (wire token : Bytes) (hn : Nat) (hp : List Nat) : List Nat :=
-  if wire.head? = some 5 then [hn]
+  if (decTL wire).map (·.1) = some 5 then [hn]   -- `pkt.L3.Interest != nil`: the decoded outer type, in any form
   else if token.length = 6 then
     (if beDec (token.take 2) < nThreads then [beDec (token.take 2)] else [])
   else hp
